@@ -83,6 +83,45 @@ class Sx:
         self.run.reached[label] = self.run.reached.get(label, 0) + 1
 
 
+def cross_check(tlimit_ms=4000):
+    """re-decide the sampled proven obligation queries (core.XCHECK) with cvc5"""
+    res = {'queries': 0, 'agree': 0, 'disagree': 0, 'unknown': 0, 'error': 0}
+    samples, core.XCHECK[:] = list(core.XCHECK), []
+    if not samples:
+        return res
+    try:
+        import cvc5
+    except Exception:
+        res['error'] = len(samples)
+        return res
+    for _size, text_ in samples:
+        res['queries'] += 1
+        try:
+            slv = cvc5.Solver()
+            slv.setOption('tlimit-per', str(tlimit_ms))
+            parser = cvc5.InputParser(slv)
+            parser.setStringInput(cvc5.InputLanguage.SMT_LIB_2_6, '(set-logic ALL)\n' + text_, 'xcheck')
+            sm = parser.getSymbolManager()
+            answer = None
+            while True:
+                cmd = parser.nextCommand()
+                if cmd.isNull():
+                    break
+                out = cmd.invoke(slv, sm)
+                o = str(out).strip()
+                if o in ('sat', 'unsat', 'unknown'):
+                    answer = o
+            if answer == 'unsat':
+                res['agree'] += 1
+            elif answer == 'sat':
+                res['disagree'] += 1
+            else:
+                res['unknown'] += 1
+        except Exception:
+            res['error'] += 1
+    return res
+
+
 class Run:
     """Exploration of one harness instance."""
 
@@ -180,6 +219,9 @@ class Run:
             if len(self.errors) > 3:
                 break
         self.wall_s = time.perf_counter() - t0
+        self.xcheck = cross_check()
+        if self.xcheck.get('disagree'):
+            self.errors.append(f"second solver disagrees on {self.xcheck['disagree']} proven obligation quer(y/ies): cvc5 says sat/unknown-with-model where z3 said unsat")
         if self.aborted:
             for ob in self.obligations.values():
                 ob.inconclusive.append(f'{len(self.aborted)} path(s) aborted: {self.aborted[0][0]}: {self.aborted[0][1]}')
